@@ -30,7 +30,7 @@ pub const K5_FIXED: bool = true;
 /// K6: a packet id is re-used for a new PUBLISH while a QoS 2 flow on it still awaits PUBCOMP
 pub const K6_FIXED: bool = true;
 /// K7: v5 acks with a failure reason code skip the bookkeeping (window leak / blocked publish stuck or dropped)
-pub const K7_FIXED: bool = false;
+pub const K7_FIXED: bool = true;
 /// K8: v5 CONNACK lowers receive_max below the id allocator's position: ids run past the window
 pub const K8_FIXED: bool = true;
 /// K9: v4 clean() order is wrong when ids were consumed without holding a slot (SUBSCRIBE /
